@@ -131,7 +131,10 @@ def main():
                 sh("git -C /repo checkout -- .")
     # record
     dst = f"/verif/seeded/{prop}-{variant}"
-    if os.environ.get("SEEDED_ROUND4"):
+    if os.environ.get("SEEDED_ROUND5"):
+        # fifth round: A -> I, B -> J
+        dst = f"/verif/seeded/{prop}-{chr(ord(variant) + 8)}"
+    elif os.environ.get("SEEDED_ROUND4"):
         # fourth round: A -> G, B -> H
         dst = f"/verif/seeded/{prop}-{chr(ord(variant) + 6)}"
     elif os.environ.get("SEEDED_ROUND3"):
